@@ -14,7 +14,7 @@ from ufl.algorithms.apply_algebra_lowering import LowerCompoundAlgebra
 from ufl.core.multiindex import indices
 
 from ufv import num as N
-from ufv.core import undecided, violated
+from ufv.core import undecided, violated, proved
 from ufv.den import den, leibniz_det, _cofactor
 from ufv.opq import Opq, mesh
 from ufv.semv import check_pred, check_same, complex_world, real_world
@@ -221,6 +221,49 @@ def build(run):
     run.add("compound_expressions.cross_expr/real", cross_thunk, kind="proof")
 
     # ---- canary: a deliberately wrong spec must be refuted
+    # ---- degenerate operands through the public functions: zero tensors (literal, lists of literal zeros, 0*A) of rectangular shapes.  The constructors
+    # fold them before any lowering rule runs: the folded result still has the operator's textbook shape and lowers to a vanishing expression of that shape
+    def zero_operands():
+        import ufl
+        from ufl.algorithms.apply_algebra_lowering import apply_algebra_lowering
+        A23, A32, A33, v2, v3 = Opq("A", (2, 3)), Opq("B", (3, 2)), Opq("S", (3, 3)), Opq("v", (2,)), Opq("w", (3,))
+
+        def zeros(sh):
+            yield "zero(shape)", C.Zero(sh)
+            yield "0*A", C.IntValue(0) * Opq("Z", sh)
+            if len(sh) == 2:
+                yield "list of literal zeros", ufl.as_matrix([[0] * sh[1] for _ in range(sh[0])])
+        cases = []
+        for sh in ((2, 3), (3, 2), (4, 2), (3, 3)):
+            for zn, Z in zeros(sh):
+                cases += [(f"transpose({zn} {sh})", lambda Z=Z: ufl.transpose(Z), sh[::-1]), (f"{zn} {sh}.T", lambda Z=Z: Z.T, sh[::-1])]
+                if sh[0] == sh[1]:
+                    cases += [(f"{fn.__name__}({zn} {sh})", (lambda Z=Z, fn=fn: fn(Z)), sh) for fn in (ufl.sym, ufl.skew, ufl.dev)]
+                    cases += [(f"tr({zn} {sh})", lambda Z=Z: ufl.tr(Z), ())]
+        for zn, Z in zeros((2, 3)):
+            cases += [(f"dot({zn}(2,3), w(3))", lambda Z=Z: ufl.dot(Z, v3), (2,)), (f"dot(v(2), {zn}(2,3))", lambda Z=Z: ufl.dot(v2, Z), (3,)), (f"dot({zn}(2,3), B(3,2))", lambda Z=Z: ufl.dot(Z, A32), (2, 2)),
+                      (f"dot(B(3,2), {zn}(2,3))", lambda Z=Z: ufl.dot(A32, Z), (3, 3)), (f"inner({zn}(2,3), A(2,3))", lambda Z=Z: ufl.inner(Z, A23), ()), (f"outer({zn}(2,3), v(2))", lambda Z=Z: ufl.outer(Z, v2), (2, 3, 2)),
+                      (f"outer(w(3), {zn}(2,3))", lambda Z=Z: ufl.outer(v3, Z), (3, 2, 3)), (f"inner(B, transpose({zn}(2,3)))", lambda Z=Z: ufl.inner(A32, ufl.transpose(Z)), ()),
+                      (f"dot(transpose({zn}(2,3)), v(2))", lambda Z=Z: ufl.dot(ufl.transpose(Z), v2), (3,))]
+        n = 0
+        for nm, mk_, want in cases:
+            try:
+                e = mk_()
+                r = apply_algebra_lowering(e)
+            except Exception as ex:  # noqa: BLE001
+                return violated(f"{nm}: raised {type(ex).__name__}: {ex} on a legal operand", replay={"case": nm}, reproduced=True, backend="exec")
+            n += 1
+            for what, x_ in (("the constructed expression", e), ("its lowering", r)):
+                if tuple(x_.ufl_shape) != tuple(want):
+                    return violated(f"{nm}: {what} has shape {x_.ufl_shape}, the operator's shape is {want}", replay={"case": nm, "got": list(x_.ufl_shape), "want": list(want)},
+                                    reproduced=True, backend="structural")
+            if not isinstance(r, C.Zero):
+                res = check_same(real_world(), r, lambda w, c, env: 0, want, timeout_ms=tmo, what=f"{nm} vanishes")
+                if res.status != "proved":
+                    return res
+        return proved("exec+structural", vcs=n, sample=f"{n} compound operators on zero operands (three spellings, rectangular shapes): textbook shape before and after lowering, value 0")
+    run.add("public-operators/zero-operands-keep-the-operator-shape", zero_operands, kind="values")
+
     def canary():
         A = Opq("A", (2, 2))
         r = CE.determinant_expr(A)
